@@ -698,7 +698,7 @@ pub fn run_case(case: &Case) -> CaseResult {
 										EasingSpec::InPowf(p) | EasingSpec::OutPowf(p) | EasingSpec::InOutPowf(p) if p < 1.0 => 1e-4 * (ms.output.1 - ms.output.0).abs(),
 										_ => 0.0,
 									};
-									if (got_param - wantp).abs() > tolp + steep {
+									if !((got_param - wantp).abs() <= tolp + steep) {
 										res.fail(Violation::new(
 											"linked-parameter",
 											"linked-value-not-mapping-of-current-value",
